@@ -23,6 +23,7 @@ import (
 	"sort"
 	"strconv"
 	"strings"
+	"syscall"
 	"testing"
 	"time"
 
@@ -145,6 +146,13 @@ type scenario struct {
 	PriorForeign int `json:"prior_foreign,omitempty"`
 	// Svsm: an SVSM image is supplied (snapshot method writes a second set of files).
 	Svsm bool `json:"svsm,omitempty"`
+	// Out: the output modality in force ("" = --quiet | "normal" = none of the output flags |
+	// "verbose" = --verbose | "logs" = --use_logs). KeepGoing: the global --keep_going option. Neither
+	// appears in the statement: whatever they are, every clause holds.
+	Out       string `json:"out,omitempty"`
+	KeepGoing bool   `json:"keep_going,omitempty"`
+	// CLI (set by the command-line sub-checks only): how the request was spelled as flags.
+	CLI *cliShape `json:"cli,omitempty"`
 }
 
 func (sc *scenario) String() string {
@@ -158,6 +166,15 @@ func (sc *scenario) String() string {
 	}
 	if sc.Svsm {
 		extra += " svsm"
+	}
+	if sc.Out != "" {
+		extra += " out=" + sc.Out
+	}
+	if sc.KeepGoing {
+		extra += " keep_going"
+	}
+	if sc.CLI != nil {
+		extra += " cli{" + sc.CLI.String() + "}"
 	}
 	return fmt.Sprintf("%s b=%d ow=%v pre=%v cand=%q%s [%s]", sc.Mode, sc.Budget, sc.Overwrite, sc.PreExisting, sc.Candidate, extra, strings.Join(ss, " "))
 }
@@ -689,16 +706,7 @@ func directChange(d *vcsDouble) func(context.Context, endorse.ChangeOps) (string
 type submitFn func(ctx context.Context, f func(context.Context, endorse.ChangeOps) (string, error)) error
 
 func runScenario(sc *scenario, submit submitFn, opts ...func(*vcsDouble)) (d *vcsDouble, err error, pan any) {
-	d = newDouble(sc)
-	for _, o := range opts {
-		o(d)
-	}
-	d.seedHead(sc)
-	if sc.PreExisting {
-		for _, p := range ownFiles(sc) {
-			d.head[d.ReleasePath(nil, p)] = []byte("an older endorsement")
-		}
-	}
+	d = preparedDouble(sc, opts...)
 	ec := &endorse.Context{
 		SevSnp: &sev.SnpEndorsementRequest{
 			Svn:         2,
@@ -722,7 +730,7 @@ func runScenario(sc *scenario, submit submitFn, opts ...func(*vcsDouble)) (d *vc
 	if sc.Svsm {
 		ec.SvsmImage = []byte("an SVSM IGVM image")
 	}
-	ctx := output.NewContext(context.Background(), &output.Options{Quiet: true, Overwrite: sc.Overwrite})
+	ctx := output.NewContext(context.Background(), outputOptions(sc.Out, sc.KeepGoing, sc.Overwrite))
 	ctx = keys.NewContext(ctx, &keys.Context{CA: fakeCA{}, Signer: fakeSigner{}, Random: &counterReader{}})
 	ctx = endorse.NewContext(ctx, ec)
 	defer func() {
@@ -733,12 +741,96 @@ func runScenario(sc *scenario, submit submitFn, opts ...func(*vcsDouble)) (d *vc
 			pan = r
 		}
 	}()
-	if sc.Mode == modeDir {
-		err = submit(ctx, directChange(d))
-	} else {
-		err = endorse.VirtualFirmware(ctx)
-	}
+	muted(sc.Out, true, func() {
+		if sc.Mode == modeDir {
+			err = submit(ctx, directChange(d))
+		} else {
+			err = endorse.VirtualFirmware(ctx)
+		}
+	})
 	return
+}
+
+// preparedDouble is the back end of a scenario with the scenario's pre-run history in its head.
+func preparedDouble(sc *scenario, opts ...func(*vcsDouble)) *vcsDouble {
+	d := newDouble(sc)
+	for _, o := range opts {
+		o(d)
+	}
+	d.seedHead(sc)
+	if sc.PreExisting {
+		for _, p := range ownFiles(sc) {
+			d.head[d.ReleasePath(nil, p)] = []byte("an older endorsement")
+		}
+	}
+	return d
+}
+
+// outModes are the output modalities of output.Options ("" = Quiet).
+var outModes = []string{"", "normal", "verbose", "logs"}
+
+// outputOptions builds the global options of a run. Nothing the code prints reaches the test's own
+// output: Out/Err are discarded, --use_logs (the logging library writes to the process's standard error) and
+// --verbose (which writes to the process's standard output whatever Out says) are run under muted.
+func outputOptions(out string, keepGoing, overwrite bool) *output.Options {
+	o := &output.Options{Overwrite: overwrite, KeepGoing: keepGoing, Out: io.Discard, Err: io.Discard}
+	switch out {
+	case "":
+		o.Quiet = true
+	case "normal":
+	case "verbose":
+		o.Verbose = true
+	case "logs":
+		o.UseLogs = true
+	default:
+		panic("harness: unknown output mode " + out)
+	}
+	return o
+}
+
+var devNull *os.File
+
+// muted runs f with the process's standard output (--verbose and, on the command line, everything
+// but --quiet write there) and, for --use_logs, also its standard error (where the logging library
+// writes) pointed at the null device, so that nothing the code under test prints is mixed into the
+// check's own output. direct says that Out/Err of the options are already discarded (a hand-built
+// Context), so that only --verbose and --use_logs need it.
+func muted(out string, direct bool, f func()) {
+	var fds []int
+	switch {
+	case out == "logs":
+		fds = []int{1, 2}
+	case out == "verbose" || (out == "normal" && !direct):
+		fds = []int{1}
+	default:
+		f()
+		return
+	}
+	if devNull == nil {
+		var err error
+		if devNull, err = os.OpenFile(os.DevNull, os.O_WRONLY, 0); err != nil {
+			panic("harness: " + err.Error())
+		}
+	}
+	saved := make([]int, len(fds))
+	for i, fd := range fds {
+		var err error
+		if saved[i], err = syscall.Dup(fd); err != nil {
+			panic("harness: dup: " + err.Error())
+		}
+	}
+	defer func() {
+		for i, fd := range fds {
+			syscall.Dup2(saved[i], fd)
+			syscall.Close(saved[i])
+		}
+	}()
+	for _, fd := range fds {
+		if err := syscall.Dup2(int(devNull.Fd()), fd); err != nil {
+			panic("harness: dup2: " + err.Error())
+		}
+	}
+	f()
 }
 
 // ---------------------------------------------------------------------------------------------
@@ -1126,6 +1218,25 @@ func tally(name string, sc *scenario, s summary) {
 	if s.errorIdentity != "" {
 		ev.Class(name, "informational/"+s.errorIdentity)
 	}
+	// the global options the run was made under (they are outside the statement: all clauses held)
+	how := "failed-submission-reported-as-failure:" + s.outcome
+	if s.outcome == "ok" {
+		how = "success-reported-for-a-commit"
+	}
+	if sc.KeepGoing {
+		ev.Class(name, "judged/keep_going/"+how)
+	}
+	if sc.Out != "" {
+		ev.Class(name, "judged/output="+sc.Out+"/"+how)
+	}
+}
+
+// genOptions draws the global options that are not in the statement: the output modality and
+// --keep_going.
+func genOptions(t *rapid.T) (out string, keepGoing bool) {
+	out = rapid.SampledFrom([]string{"", "", "", "normal", "verbose", "logs"}).Draw(t, "out")
+	keepGoing = rapid.IntRange(0, 2).Draw(t, "keepGoing") == 0
+	return
 }
 
 func sample(sc *scenario, d *vcsDouble, err error) func() any {
@@ -1342,7 +1453,7 @@ func genScript(t *rapid.T, sites []string, n int) []step {
 func TestSampledScenarios(t *testing.T) {
 	initFW(t)
 	const name = "vf/sampled"
-	ev.Rule(name, "endorse.VirtualFirmware against the scripted double; retry budget drawn from {-2,-1,0,1,2,5,5,5}; script of max(budget,0)+2 steps shaped {mixed, all-retriable, k retriable then ok, k retriable then permanent} over all fault sites, 0..3 foreign entries before each attempt; commit method {manifest x3, snapshot dir x1}; --overwrite in {true,false} x endorsement file already committed in {false,true} (false/true makes the code's own 'cannot overwrite' error, which the back end does not call retriable); candidate name in {\"\",\"rc7\"}; two faults in three wrap a standard error kind. Manifest method: the head holds own earlier entries {none x3, path, same, digest, split, split-rev as in vf/refresh} after 0..2 foreign ones; one scenario in ten has the concurrent writer leave unknown fields in the manifest before some attempt (as in vf/unparsable). Snapshot method: SVSM image {yes,no} (a second set of files), 'already committed' means the .signed files of the snapshot, the existence probe can fault (it exists only without --overwrite), and a write/chmod/probe fault hits the 1st..3rd such operation of the attempt. Oracle as in vf/exhaustive (manifest clauses only for the manifest method). non-trivial = >=2 attempts, or (manifest method only) a foreign entry; distinct = the scenario")
+	ev.Rule(name, "endorse.VirtualFirmware against the scripted double; retry budget drawn from {-2,-1,0,1,2,5,5,5}; script of max(budget,0)+2 steps shaped {mixed, all-retriable, k retriable then ok, k retriable then permanent} over all fault sites, 0..3 foreign entries before each attempt; commit method {manifest x3, snapshot dir x1}; --overwrite in {true,false} x endorsement file already committed in {false,true} (false/true makes the code's own 'cannot overwrite' error, which the back end does not call retriable); candidate name in {\"\",\"rc7\"}; global options outside the statement: output modality {--quiet x3, none, --verbose, --use_logs} and --keep_going {off x2, on} (no clause may depend on them: a submission that did not commit is a failure under --keep_going too); two faults in three wrap a standard error kind. Manifest method: the head holds own earlier entries {none x3, path, same, digest, split, split-rev as in vf/refresh} after 0..2 foreign ones; one scenario in ten has the concurrent writer leave unknown fields in the manifest before some attempt (as in vf/unparsable). Snapshot method: SVSM image {yes,no} (a second set of files), 'already committed' means the .signed files of the snapshot, the existence probe can fault (it exists only without --overwrite), and a write/chmod/probe fault hits the 1st..3rd such operation of the attempt. Oracle as in vf/exhaustive (manifest clauses only for the manifest method). non-trivial = >=2 attempts, or (manifest method only) a foreign entry; distinct = the scenario")
 	checks(ev.Scale(6000, 60000))
 	rapid.Check(t, func(t *rapid.T) {
 		sc := &scenario{Mode: modeVF}
@@ -1362,6 +1473,7 @@ func TestSampledScenarios(t *testing.T) {
 		sc.Script = genScript(t, sites, bound(sc.Budget)+1)
 		sc.PreExisting = rapid.IntRange(0, 2).Draw(t, "preexisting") == 0
 		sc.Candidate = rapid.SampledFrom([]string{"", "rc7"}).Draw(t, "candidate")
+		sc.Out, sc.KeepGoing = genOptions(t)
 		if sc.Mode == modeSnap {
 			// the snapshot method writes, and sets the mode of, several files: let the fault hit a
 			// later one too
@@ -1404,12 +1516,13 @@ func TestSampledScenarios(t *testing.T) {
 func TestRetrySubmitDirect(t *testing.T) {
 	initFW(t)
 	const name = "retrysubmit/direct"
-	ev.Rule(name, "endorse.RetrySubmit called directly with a well-behaved harness change function (fresh manifest read from the workspace it is given, then writes) that can itself fail retriably or permanently before touching the workspace; retry budget drawn from -3..8; script of max(budget,0)+2 steps as in vf/sampled (standard error kinds included) plus the 'change' site. Oracle as in vf/exhaustive. non-trivial = >=2 attempts or a foreign entry; distinct = the scenario")
+	ev.Rule(name, "endorse.RetrySubmit called directly with a well-behaved harness change function (fresh manifest read from the workspace it is given, then writes) that can itself fail retriably or permanently before touching the workspace; retry budget drawn from -3..8; script of max(budget,0)+2 steps as in vf/sampled (standard error kinds included) plus the 'change' site; output modality and --keep_going drawn as in vf/sampled. Oracle as in vf/exhaustive. non-trivial = >=2 attempts or a foreign entry; distinct = the scenario")
 	checks(ev.Scale(6000, 60000))
 	rapid.Check(t, func(t *rapid.T) {
 		sc := &scenario{Mode: modeDir, Overwrite: true}
 		sc.Budget = rapid.IntRange(-3, 8).Draw(t, "budget")
 		sc.Script = genScript(t, []string{sWS, sRead, sWrite, sChmod, sWMan, sCommit, sChange}, bound(sc.Budget)+1)
+		sc.Out, sc.KeepGoing = genOptions(t)
 		d, err, pan := runScenario(sc, endorse.RetrySubmit)
 		v, sum := judge(sc, d, err, pan)
 		if v != nil {
@@ -1441,7 +1554,7 @@ func safeVirtualFirmware(ctx context.Context) (err error, pan any) {
 func TestContextReuse(t *testing.T) {
 	initFW(t)
 	const name = "vf/reuse"
-	ev.Rule(name, "ONE *endorse.Context and ONE scripted back end used for 2..4 consecutive endorse.VirtualFirmware submissions (candidate names sub0, sub1, ...; retry budget drawn from {0,1,2} and, between submissions, now and then set anew from {-1,0,1,2}; --overwrite drawn); the Context starts as {VCS=double, VCSs empty | VCS nil, VCSs=[double] | VCS=double, VCSs=[double]}; each submission has its own outcome script, shapes {ok x3, commit.r then ok x2, one permanent fault x2, all retriable, mixed over all sites}, 0..2 foreign entries before an attempt now and then. Oracle: every single-submission clause of vf/exhaustive applied to that submission's slice of the call log and to the workspaces created during it (attempts <= max(budget,0)+1, no attempt after a successful commit, retry only on a retriable verdict, fresh workspace per attempt, failed workspaces released once, nil iff exactly one commit succeeded, Result exactly once with that commit, committed manifest keeps every foreign entry). One ev.Case per submission; non-trivial = second or later submission; distinct = (initial wiring, budget, overwrite, scripts up to and including this submission)")
+	ev.Rule(name, "ONE *endorse.Context and ONE scripted back end used for 2..4 consecutive endorse.VirtualFirmware submissions (candidate names sub0, sub1, ...; retry budget drawn from {0,1,2} and, between submissions, now and then set anew from {-1,0,1,2}; --overwrite, the output modality and --keep_going drawn once per Context as in vf/sampled); the Context starts as {VCS=double, VCSs empty | VCS nil, VCSs=[double] | VCS=double, VCSs=[double]}; each submission has its own outcome script, shapes {ok x3, commit.r then ok x2, one permanent fault x2, all retriable, mixed over all sites}, 0..2 foreign entries before an attempt now and then. Oracle: every single-submission clause of vf/exhaustive applied to that submission's slice of the call log and to the workspaces created during it (attempts <= max(budget,0)+1, no attempt after a successful commit, retry only on a retriable verdict, fresh workspace per attempt, failed workspaces released once, nil iff exactly one commit succeeded, Result exactly once with that commit, committed manifest keeps every foreign entry). One ev.Case per submission; non-trivial = second or later submission; distinct = (initial wiring, budget, overwrite, scripts up to and including this submission)")
 	checks(ev.Scale(2500, 25000))
 	sites := []string{sWS, sRead, sExists, sWrite, sChmod, sWMan, sCommit}
 	rapid.Check(t, func(t *rapid.T) {
@@ -1449,6 +1562,7 @@ func TestContextReuse(t *testing.T) {
 		budget := rapid.SampledFrom([]int{0, 1, 2}).Draw(t, "budget")
 		overwrite := rapid.Bool().Draw(t, "overwrite")
 		nsub := rapid.IntRange(2, 4).Draw(t, "nsub")
+		out, keepGoing := genOptions(t)
 
 		d := newDouble(&scenario{Mode: modeVF, Budget: budget})
 		ec := &endorse.Context{
@@ -1474,11 +1588,11 @@ func TestContextReuse(t *testing.T) {
 			ec.VCS = d
 			ec.VCSs = []endorse.VersionControl{d}
 		}
-		ctx := output.NewContext(context.Background(), &output.Options{Quiet: true, Overwrite: overwrite})
+		ctx := output.NewContext(context.Background(), outputOptions(out, keepGoing, overwrite))
 		ctx = keys.NewContext(ctx, &keys.Context{CA: fakeCA{}, Signer: fakeSigner{}, Random: &counterReader{}})
 		ctx = endorse.NewContext(ctx, ec)
 
-		history := fmt.Sprintf("wiring=%s ow=%v", wiring, overwrite)
+		history := fmt.Sprintf("wiring=%s ow=%v out=%s keep_going=%v", wiring, overwrite, out, keepGoing)
 		for k := 0; k < nsub; k++ {
 			// The caller may set another retry budget between submissions (the first one keeps
 			// the budget the Context was built with): nothing of the previous budget may linger.
@@ -1486,7 +1600,7 @@ func TestContextReuse(t *testing.T) {
 				budget = rapid.SampledFrom([]int{-1, 0, 1, 2}).Draw(t, "newBudget")
 				ec.CommitRetries = budget
 			}
-			sc := &scenario{Mode: modeVF, Budget: budget, Overwrite: overwrite, Candidate: fmt.Sprintf("sub%d", k)}
+			sc := &scenario{Mode: modeVF, Budget: budget, Overwrite: overwrite, Candidate: fmt.Sprintf("sub%d", k), Out: out, KeepGoing: keepGoing}
 			switch shape := rapid.SampledFrom([]string{"ok", "ok", "ok", "retry-ok", "retry-ok", "permanent", "permanent", "exhaust", "mixed"}).Draw(t, "shape"); shape {
 			case "ok":
 				sc.Script = []step{{Site: sOK}}
@@ -1507,7 +1621,9 @@ func TestContextReuse(t *testing.T) {
 			}
 			ec.CandidateName = sc.Candidate
 			view := d.begin(sc)
-			err, pan := safeVirtualFirmware(ctx)
+			var err error
+			var pan any
+			muted(out, true, func() { err, pan = safeVirtualFirmware(ctx) })
 			dv := view()
 			history += fmt.Sprintf(" | #%d %s", k+1, sc)
 			v, sum := judge(sc, dv, err, pan)
